@@ -67,6 +67,8 @@ def expand_desc(draw, allow_skip=False):
         "xf_atom": draw(st.sampled_from(XF)),
         "xf_rest": draw(st.sampled_from(XF)),
     }
+    if draw(st.integers(0, 6)) == 0:
+        d["mirror"] = draw(st.sampled_from([1, 2, 2]))  # children written with letters exchanged / rotated: union maps that are not the identity
     if allow_skip and draw(st.integers(0, 3)) == 0:
         if draw(st.booleans()):
             d["skip"] = sorted(draw(st.sets(st.integers(0, 3), min_size=1, max_size=2)))
@@ -432,7 +434,13 @@ def scenario(draw, tier="quick", dbs=None, finite=False, atoms_only=False, allow
     call = draw(call_desc())
     if call.get("smallest") and (len(cls[0]) >= 3 or draw(st.booleans())):
         call["smallest"] = False  # the bounded DFS behind 'smallest' is exponential on big universes
+    extra = {}
+    if draw(st.integers(0, 7)) == 0:
+        # a class database handed to the searcher that already knows a few classes
+        extra["prefill"] = [draw(class_desc(tier=tier, max_stats=2)) for _ in range(draw(st.integers(1, 3)))]
+        extra["prefill_start_at"] = draw(st.integers(-1, 3))
     return {
+        **extra,
         "class": cls,
         "compressed": draw(st.sampled_from([0, 0, 0, 0, 0, 1, 1, 3, 4, 5, 6])),  # 1: byte-encoded keys, 3: colliding hashes, 4/5: same class names in another module, 6: byte-encoded with colliding hashes
         "pack": pack,
